@@ -266,8 +266,8 @@ var props = []PropSpec{
 	},
 	{
 		ID: "C12", Pkg: "./c12", Level: "other", NoNativeBuild: true,
-		Explanation: "PARTIAL and bounded; originally planned as not applicable (DESIGN.md section 6) and claimed only for the slice that became encodable once schedule exploration existed (section 11.4). Decided: TWO clients. TCP: two in-memory connections, each carrying a template and two data messages with symbolic values, are served exactly as the accept loop serves them (hook VerifServeConn: wait-group accounting, handler goroutine, reader goroutine), a consumer goroutine drains the message channel, and Stop is called either after both streams ended or while they are in flight; UDP: datagrams of two clients are dispatched as the read loop does (hook VerifHandleUDPMessage: per-client goroutine and queue), in three arrival interleavings, then Stop. Under EVERY interleaving of the goroutines' synchronisation points (mutex lock/unlock with real blocking semantics, channel send/receive/close/select, WaitGroup) within a preemption budget of 1 (quick) / 2 (thorough): each connection's / client's messages are delivered exactly once (a prefix of them when Stop comes first), in the order sent, never mixed between clients (values are symbolic: an SMT obligation); the connection count / client table returns to zero; Stop returns (a hang is an engine deadlock outcome); every connection is closed; afterwards no interpreted goroutine of the process remains; no panic (e.g. send on a closed channel, negative WaitGroup counter). NOT covered and not claimed: kernel sockets and the listening socket, the accept loop itself, TLS, more than two clients, preemption inside code between synchronisation points (data races there are not detected: the race detector is not involved), abrupt mid-message close of a real socket, timing.",
-		Assumptions: []string{"in-memory net.Conn honouring the documented contract (Read returns the stream then io.EOF; after Close, Read errors)", "bounded preemptions; cooperative execution between synchronisation points", "the UDP client's idle ticker never fires"},
+		Explanation: "PARTIAL and bounded; originally planned as not applicable (DESIGN.md section 6) and claimed only for the slice that became encodable once schedule exploration existed (section 11.4). Decided: TWO clients. (1) The real Start() of the TCP server runs on a listener supplied by the environment stub (net.Listen returns the harness's in-memory listener holding two connections): accept loop, wait-group accounting, per-connection handler and reader goroutines, listener close on Stop. (2) The real Start() of the UDP server runs on a stub socket (net.ListenUDP / ReadFromUDP deliver the registered datagrams of two clients into the caller's buffer, then block until Close): socket read loop with its buffer handling, dispatch, per-client goroutines and queues. (3)/(4) the same handlers driven through the hooks VerifServeConn / VerifHandleUDPMessage with more variation (a client that disconnects inside a message header or body; three datagram arrival orders). In all four a consumer goroutine drains the message channel and Stop is called either after all traffic was consumed or while it is in flight. Under EVERY interleaving of the goroutines' synchronisation points (mutex lock/unlock with real blocking semantics, channel send/receive/close/select with rendezvous semantics for unbuffered channels, WaitGroup, the stub socket's read) within the stated preemption budget: each connection's / client's messages are delivered exactly once (a prefix of them when Stop comes first), in the order sent, uncorrupted and never mixed between clients (values are symbolic: an SMT obligation); the connection count / client table returns to zero; Stop returns (a hang is an engine deadlock / budget outcome); the listener / socket and every accepted connection are closed; afterwards no interpreted goroutine of the process remains; no panic (e.g. send on a closed channel, negative WaitGroup counter). NOT covered and not claimed: kernel sockets, TLS/DTLS servers, more than two clients, preemption inside code between synchronisation points (data races there are not detected: the race detector is not involved), Stop racing with the very beginning of Start, timing.",
+		Assumptions: []string{"in-memory net.Conn honouring the documented contract (Read returns the stream then io.EOF; after Close, Read errors)", "in-memory net.Listener: Accept returns the queued connections, then blocks until Close and returns an error", "stub UDP socket: ReadFromUDP copies the next datagram into the buffer it is given and returns its length and source; after Close it returns (0, nil, error)", "bounded preemptions; cooperative execution between synchronisation points", "the UDP client's idle ticker never fires"},
 		Harnesses: []HarnessSpec{
 			{Func: "Check_TwoClients", NoNative: true, Reach: []string{"all-delivered", "stopped-during-traffic"},
 				Tune: func(c *sym.Config, th bool) {
@@ -276,17 +276,39 @@ var props = []PropSpec{
 					if th {
 						c.MaxPreemptions = 2
 					}
+					// a handler that never returns makes the harness wait forever: a hang is the violation
+					c.HangIsViolation = true
+					c.InstrBudget = 3_000_000
 				},
 				Bounds: "2 TCP connections x (template + 2 data messages, symbolic values) x {Stop after the streams ended, Stop during traffic}; every interleaving with at most 1 (quick) / 2 (thorough) preemptions"},
-			{Func: "Check_TwoUDPClients", NoNative: true, Reach: []string{"udp-delivered"},
+			{Func: "Check_TwoUDPClients", NoNative: true, Reach: []string{"udp-delivered", "udp-stopped-during-traffic"},
+				Tune: func(c *sym.Config, th bool) {
+					c.ExploreSchedules = true
+					c.MaxPreemptions = 2
+				},
+				Bounds: "2 UDP clients; without Stop during traffic: (template + 2 data datagrams) each x 3 arrival orders; with Stop during traffic: 4 datagrams; every interleaving with at most 2 preemptions (3 preemptions: 37 min, clean once, not registered)"},
+			{Func: "Check_StartTCP", NoNative: true, Reach: []string{"start-tcp-all-delivered", "start-tcp-stopped-during-traffic"},
 				Tune: func(c *sym.Config, th bool) {
 					c.ExploreSchedules = true
 					c.MaxPreemptions = 1
 					if th {
 						c.MaxPreemptions = 2
 					}
+					c.HangIsViolation = true
+					c.InstrBudget = 3_000_000
 				},
-				Bounds: "2 UDP clients x (template + 2 data datagrams) x 3 arrival orders; every interleaving with at most 1 / 2 preemptions"},
+				Bounds: "real Start() on an in-memory listener with 2 connections x (template + 2 data messages, symbolic values) x {Stop after the streams ended, Stop once the first connection was accepted}; every interleaving with at most 1 (quick) / 2 (thorough) preemptions"},
+			{Func: "Check_StartUDP", NoNative: true, Reach: []string{"start-udp-all-delivered", "start-udp-stopped-during-traffic"},
+				Tune: func(c *sym.Config, th bool) {
+					c.ExploreSchedules = true
+					c.MaxPreemptions = 1
+					if th {
+						c.MaxPreemptions = 2
+					}
+					c.HangIsViolation = true
+					c.InstrBudget = 3_000_000
+				},
+				Bounds: "real Start() on a stub UDP socket delivering 6 datagrams (4 with Stop during traffic) of 2 clients in 2 arrival orders, maxBufferSize 128; every interleaving with at most 1 (quick) / 2 (thorough) preemptions"},
 		},
 	},
 	{
